@@ -71,6 +71,11 @@ fn serialize_object(
             return Err(Amf0SerializationError::NormalStringTooLong);
         }
 
+        if name.is_empty() {
+            // An empty name followed by a value cannot be told apart from the object end marker
+            return Err(Amf0SerializationError::EmptyObjectPropertyName);
+        }
+
         bytes.write_u16::<BigEndian>(name.len() as u16)?;
         bytes.extend(name.as_bytes());
         serialize_value(&value, bytes)?;
